@@ -9,6 +9,7 @@ CONSTANTS
   RxDeltas = {0, 2}
   Delays = {0, 1, 3}
   CtrlDelays = {}
+  IndexMode = "pos"
   Record = TRUE
 INVARIANTS EmitScn
 CHECK_DEADLOCK FALSE
